@@ -59,9 +59,16 @@ class DirDBM:
             # but before renaming the replacement entry.
             #
             # NOTE: '.' is NOT in the base64 alphabet!
-            for f in glob.glob(self._dnamePath.child("*.new").path):
+            def pattern(extension):
+                # The directory's own name may contain glob characters.
+                directory, entries = os.path.split(
+                    self._dnamePath.child("*" + extension).path
+                )
+                return os.path.join(glob.escape(directory), entries)
+
+            for f in glob.glob(pattern(".new")):
                 os.remove(f)
-            replacements = glob.glob(self._dnamePath.child("*.rpl").path)
+            replacements = glob.glob(pattern(".rpl"))
             for f in replacements:
                 old = f[:-4]
                 if os.path.exists(old):
@@ -74,7 +81,12 @@ class DirDBM:
         Encode a key so it can be used as a filename.
         """
         # NOTE: '_' is NOT in the base64 alphabet!
-        return base64.encodebytes(k).replace(b"\n", b"_").replace(b"/", b"-")
+        # The empty key encodes to nothing, which as a file name would be the
+        # directory itself: it gets the one name no other key can produce
+        # (and which _decode turns back into the empty key).
+        return (
+            base64.encodebytes(k).replace(b"\n", b"_").replace(b"/", b"-") or b"_"
+        )
 
     def _decode(self, k):
         """
